@@ -61,6 +61,13 @@ def main():
             mod.run(prog, rep, tier, cfg)
         except AnchorMissing as e:
             rep.anchor_missing('anchor', e)
+        except Exception as e:      # a rule that cannot evaluate the tree fails closed, naming where it stopped
+            import traceback
+            tb = traceback.extract_tb(e.__traceback__)
+            last = [fr for fr in tb if '/props/' in fr.filename] or list(tb)
+            fr = last[-1]
+            rep.ob('engine', 'rule-evaluation:%s' % os.path.basename(fr.filename), False,
+                   'the rules could not be evaluated on this tree (%s: %s at %s:%d `%s`); treated as a failure' % (type(e).__name__, e, os.path.basename(fr.filename), fr.lineno, (fr.line or '')[:120]))
         if cfg != 'quick':
             # obligations of extra configurations are keyed apart
             pass
